@@ -284,7 +284,7 @@ Qed.
 Lemma get_path_go_unfold rp f f2 r2 pp node :
   get_path_go rp (f :: f2 :: r2) pp node =
   match get_field f pp node with
-  | Ok None => Err EMissing (path_of rp (field_str f))
+  | Ok None => Err EMissing (path_of pp (field_str f))
   | Ok (Some (pp', v)) => get_path_go rp (f2 :: r2) pp' v
   | Err r p => Err r p
   | Panic => Panic
